@@ -2,7 +2,7 @@
 
 
 def run(ctx):
-    ctx.lean_obligations(["SV.Props.C05"], drivers=["svdriver_c05"])
+    ctx.lean_obligations(["SV.Props.C05", "SV.Props.C05x"], drivers=["svdriver_c05"])
     quick = ctx.tier == "quick"
     b = ctx.go_test_binary("containerd-stargz-grpc/db", "h_db", module_dir="cmd")
     if b:
